@@ -651,7 +651,8 @@ let slice_dim fx shape stride start stop step have_start have_stop have_step =
     let (p0, new_shape) = p in
     let (p1, step') = p0 in
     let (start', _) = p1 in
-    DSlice (new_shape, (Z.mul stride step'), (Z.mul start' stride))
+    DSlice (new_shape, (Z.mul stride step'),
+    (Z.mul (if Z.ltb start' Z0 then Z0 else start') stride))
   | None -> DErr ValueError
 
 (** val slice_triple :
